@@ -100,6 +100,26 @@ def step (want : Nat) (s : St) (e : Ev) : St :=
     -- a handler whose channel has no receiver
     | _, _ => { s with stuck := true }
 
+/-- GetBlock mode *before* the `fix:` commit df05c01 (kept to state what was repaired):
+    BatchDone while the caller waits for a block, and a second block while the caller
+    waits for BatchDone, block the handler; the single block is returned unchecked. -/
+def stepOld (s : St) (e : Ev) : St :=
+  if s.stuck || s.dead then s else
+  match s.ps with
+  | .idle => s
+  | _ =>
+  match nextState s.ps e with
+  | none => fail s
+  | some ps' =>
+    let s := { s with ps := ps' }
+    match e, s.caller with
+    | .start, .waitStart => { s with caller := .waitBlock }
+    | .noBlocks, .waitStart => { s with caller := .ret .notFound }
+    | .block h, .waitBlock => { s with caller := .waitDone h false }
+    | .bad, _ => fail s
+    | .batchDone, .waitDone h _ => { s with caller := .ret (.ok h) }
+    | _, _ => { s with stuck := true }
+
 inductive Outcome
   | res (r : Res)
   | hang
@@ -113,6 +133,9 @@ def finish (s : St) : Outcome :=
 
 def getBlock (want : Nat) (evs : List Ev) : Outcome :=
   finish (evs.foldl (step want) St.init)
+
+def getBlockOld (evs : List Ev) : Outcome :=
+  finish (evs.foldl stepOld St.init)
 
 /-! ### GetBlockRange (callback mode) -/
 
